@@ -60,3 +60,37 @@ func c17LongChains() *mc.Harness {
 		},
 	}
 }
+
+// C17/blob-lengths: EVERY length 0..N of the ocsp and of the sct blob of a two-certificate chain (C17/roundtrip takes
+// the CBOR head-class boundaries only).  A serializer that stages head and bytes in a fixed scratch area, or a reader
+// that reads in blocks, is first wrong at a length that is no boundary of the format.
+func c17BlobLengths() *mc.Harness {
+	return &mc.Harness{
+		Name: "C17/blob-lengths",
+		Run: func(c *mc.Ctx) {
+			max := c.Pick(700, 5000)
+			n := c.Free(max+1, "length")
+			which := c.Free(3, "which") // 0: ocsp = n, sct = 5; 1: ocsp = 5, sct = n; 2: both n
+			ol, sl := n, 5
+			if which == 1 {
+				ol, sl = 5, n
+			} else if which == 2 {
+				sl = n
+			}
+			first := c.Free(2, "cert0")
+			var entries []refcert.Entry
+			var chain certurl.CertChain
+			for i := 0; i < 2; i++ {
+				ct := c17Pool[(first+i)%len(c17Pool)]
+				e := refcert.Entry{Cert: ct.cert.Raw}
+				if i == 0 {
+					e.OCSP, e.SCT = c17Own(c17Blob(c.Seed, 0, ol)), c17Own(c17Blob(c.Seed, 1, sl))
+				}
+				entries = append(entries, e)
+				chain = append(chain, &certurl.AugmentedCertificate{Cert: ct.cert, OCSPResponse: e.OCSP, SCTList: e.SCT})
+			}
+			desc := fmt.Sprintf("2 certificates starting at pool[%d], ocsp %d bytes, sct %d bytes", first, ol, sl)
+			c17CheckChain(c, "C17/blob-lengths", desc, entries, chain, func() int { return c.Free(2, "reader") })
+		},
+	}
+}
